@@ -3,6 +3,7 @@ import VM.Cache
 import VM.Executor
 import VM.SetupIndep
 import GM.SelectExec
+import VM.Canon
 /-! Line-protocol driver for histories (slice H): one DAG table, several instances, operations
     call / executor run / setup / fork (deep copy) / restart-from-cache.
 
@@ -144,6 +145,7 @@ def main : IO Unit := do
       let mut insts : Array (Inst Val) := #[⟨dag, res0⟩]
       let mut files : Nat → Option (File Val) := fun _ => none
       let mut xobjs : Array (Nat × XObj) := #[]
+      let mut selsClosed := true     -- every selection computed here satisfies ClosedSel (hypothesis of C15_call_after_any_history)
       -- the hypothesis of C15_call_after_history_is_fresh / C11_setup_value_independent_of_arguments, decided on this table:
       -- the setup nodes form a region closed under all references that holds no parameter
       let closed := regionClosedB dag.recOf dag.nodes dag.isSetup && dag.params.all (fun p => !dag.isSetup p)
@@ -164,6 +166,7 @@ def main : IO Unit := do
         | "O" :: inst :: "execT" :: k :: r =>
           let (T, r1) := takeNats k.toNat! r
           let sel := GM.selectNodes (mkGraph specs) none none (some T)
+          selsClosed := selsClosed && closedSelB ⟨dag, res0⟩ dag.isSetup (fun n => sel.contains n)
           let args := match r1 with
             | na :: r2 => (match pVal.pVals na.toNat! r2 with | some (l, _) => l | none => [])
             | [] => []
@@ -174,6 +177,7 @@ def main : IO Unit := do
         | "O" :: inst :: "setupT" :: k :: r =>
           let (T, _) := takeNats k.toNat! r
           let sel := (GM.selectNodes (mkGraph specs) none none (some T)).filter dag.isSetup
+          selsClosed := selsClosed && closedSelB ⟨dag, res0⟩ dag.isSetup (fun n => sel.contains n)
           let it := insts.getD inst.toNat! ⟨dag, res0⟩
           let op : Op Val := .setup sel
           IO.println (report sid idx n (opCfg it op))
@@ -267,5 +271,6 @@ def main : IO Unit := do
         | _ => IO.println s!"{sid} {idx} PARSE"
         idx := idx + 1
         i := i + 1
+      IO.println s!"{sid} -2 SELECTIONS {if selsClosed then "closed" else "open"}"
       i := i + 1
     | _ => i := i + 1
